@@ -2,8 +2,11 @@ CFG = {
     "modules": ["Parsley.Props.C02", "Parsley.Props.C16"],
     "theorems": ["Parsley.C02.name_window_decoder_eq", "Parsley.C02.name_spelling_decodes", "Parsley.C02.name_roundtrip", "Parsley.C02.integer_spec", "Parsley.C02.integer_roundtrip",
                  "Parsley.C02.hexstring_spec", "Parsley.C02.litstring_roundtrip", "Parsley.C02.litLoop_balanced",
+                 "Parsley.C02.real_spec", "Parsley.C02.ws_loop_eq_skip", "Parsley.C02.skipWs_run", "Parsley.C02.wsRun_run",
+                 "Parsley.C02.parseObj_token", "Parsley.C02.spell_parse_name", "Parsley.C02.spell_parse_litstring",
+                 "Parsley.C02.spell_parse_hexstring", "Parsley.C02.spell_parse_keyword", "Parsley.Shift.parseObj_pre",
                  "Parsley.C16.parse_never_panics", "Parsley.C16.obj_loc"],
-    "partial": {"(spell_parse)": "the composite theorem `parseObj (spell v ch ++ ctx) = v` for all values/choices/contexts is not proved yet; "
+    "partial": {"(spell_parse)": "END-TO-END through parse_pdf_obj (any leading whitespace/comment run, any context, any depth below the bound) for names, literal strings, hexadecimal strings, true/false/null: proved (spell_parse_*). Token level for integers and reals (integer_spec, integer_roundtrip, real_spec): proved; their composition with the reference look-ahead, and arrays/dictionaries/references, are not proved yet. Also proved: the whitespace/comment loop equals a byte-wise skipper on every input, and prefix independence of the whole object parser (parseObj_pre). Original note: the composite theorem `parseObj (spell v ch ++ ctx) = v` for all values/choices/contexts is not proved yet; "
                 "proved so far: integers (IntegerP on every sign/digit string/context, and every encoder spelling incl. leading zeros), hexadecimal strings (every digit/whitespace body, odd-digit padding, any context), literal strings (every balanced-modulo-escapes body, any context) and the name token at full strength (windowed decoder = declarative #hh decoder; every raw/#hh spelling with any hex case decodes to the name; "
                 "whole-token round trip in any terminator context), plus cursor=end/no-panic for every input (C16). Numbers, strings, references, arrays and "
                 "dictionaries are decided by the spelling-generator correspondence (oracle = the value that was spelled)."},
